@@ -74,10 +74,12 @@ def gen_env(r):
             "stack": r.pick([r.range(0, 4000), r.range(0, 120000), r.range(60000, 250000)]),   # bytes of environment: moves the stack by up to 250 KB
             "stdin": [r.pick(["pipe", "file", "file"]), r.pick([0, 0, 1, 17, 4096, 70000])],
             "proc": [r.pick([0, 0, 1, 1, 2, 4, 8, 15]), r.pick([0o022, 0o077, 0, 0o777])],   # signals inherited as ignored (1 PIPE, 2 INT, 4 HUP, 8 TERM: nohup-style launchers); umask
-            # where the kernel puts things (ASLR stays off, so every layout is reproducible): the default top-down layout, the legacy
-            # bottom-up one (setarch -L), or the default with another stack limit, which moves the base of every mapping -- shared
-            # libraries and the simulated heap with it
-            "layout": r.pick([0, 0, 1, 2, 3]),
+            # where the kernel puts things (ASLR stays off, so both layouts are reproducible): the default top-down layout or the legacy
+            # bottom-up one (setarch -L), which moves every mapping -- shared libraries and the simulated heap with them.
+            # (Moving the mmap base through the stack limit was tried and withdrawn: with 2 GiB of stack a runaway recursion of
+            # a mutated input takes a minute to die instead of milliseconds, one-sidedly, and the check became a lottery of
+            # wall-clock limits -- it ran into the 900 s ceiling of an independent run.)
+            "layout": r.pick([0, 0, 1]),
             "stdout_kind": r.pick(["pipe", "pipe", "file", "null", "null", "fileoffset", "fileappend"]),   # what descriptor 1 is: a pipe, a regular file, the null device
             "closefd": r.pick([None, None, None, None, 2, 2, 0]),   # a standard descriptor that is closed when the compiler starts (cron- and daemon-style launchers)
             "envfuzz": r.range(1, 1 << 30),    # answers to getenv() calls of the compiler itself (none in the unchanged tree)
@@ -913,6 +915,13 @@ def equalise_time(case, text):
 stats_counter = {}
 
 
+HARD_STOP = [None]      # wall-clock ceiling of a worker: past it nothing is decided again with a longer limit (the case counts as inconclusive)
+
+
+def past_hard_stop():
+    return HARD_STOP[0] is not None and time.monotonic() > HARD_STOP[0]
+
+
 def evaluate(case, sdir, reps, src, wdir, stats=None):
     infile, text = materialise(case, src, wdir)
     held = equalise_time(case, text)
@@ -922,6 +931,8 @@ def evaluate(case, sdir, reps, src, wdir, stats=None):
         if ra["status"] == rb["status"]:
             return None, ra, rb, held, text     # both hang the same way: an input problem, not a divergence
         # one-sided: a loaded machine, or a real divergence (one replica loops)? decide with six times the budget
+        if past_hard_stop():
+            return None, ra, rb, held, text
         ra = run_replica(sdir, reps, case["a"], case["e1"], infile, case["opts"], src, wdir, None, timeout=6 * TIMEOUT, aux=case.get("aux"))
         rb = run_replica(sdir, reps, case["b"], case["e2"], infile, case["opts"], src, wdir, None, timeout=6 * TIMEOUT, aux=case.get("aux"))
         if ra["status"] == "timeout" and rb["status"] == "timeout":
@@ -940,7 +951,7 @@ def evaluate(case, sdir, reps, src, wdir, stats=None):
             d = [k for k in d if k != "newfiles"]
         return d
     d = fields(ra, rb)
-    if d and any(x["status"] == 1 and not x["stderr"] and x["out"] is None for x in (ra, rb)):
+    if d and not past_hard_stop() and any(x["status"] == 1 and not x["stderr"] and x["out"] is None for x in (ra, rb)):
         # one side died without a word (the driver reports a crashed cc1 by its exit status only). The front end recurses
         # over its input, and the self-compiled compiler has bigger frames than the gcc-compiled one, so a pathological
         # input (a left-deep tree of 32768 initializer elements, say) can exhaust the 8 MiB default stack of one replica
@@ -960,8 +971,13 @@ def evaluate(case, sdir, reps, src, wdir, stats=None):
 
 def minimise(case, sdir, reps, src, wdir, fields):
     n = [0]
+    t_stop = time.monotonic() + 90      # a reduction is a convenience: it never takes more than a minute and a half
+    if HARD_STOP[0] is not None:
+        t_stop = min(t_stop, HARD_STOP[0])
 
     def still(c):
+        if time.monotonic() > t_stop:
+            return False
         n[0] += 1
         d, _, _, _, _ = evaluate(c, sdir, reps, src, wdir)
         return bool(d) and bool(set(d) & set(fields))
@@ -1011,6 +1027,7 @@ def worker(args):
     stats_file = os.path.join(wdir, "stats")
     own, tests = list_inputs(src)
     t_end = time.monotonic() + seconds
+    HARD_STOP[0] = t_end + max(120, seconds // 10)
     out = {"runs": 0, "viol": [], "hashes": set(), "nontrivial": 0, "diagnosed": 0, "crashed": 0, "ok": 0, "samples": [], "sub": {"same_replica_diff_env": 0, "diff_replica_same_env": 0, "diff_both": 0},
            "knob_diffs": dict((k, 0) for k in KNOBS), "held_time": 0, "shim": {}, "by_opt": {}, "mutated": 0, "timeouts": 0, "stack_redecided": 0, "errors": []}
     stats_counter.clear()
